@@ -69,7 +69,12 @@ func (prop) Plan(tier string, seed int64) []core.Batch {
 	// frames under the configuration without ARP/route entries: a small sample
 	p, _ := json.Marshal(params{Mode: "frames", Tables: "none", Offset: 0})
 	plan = append(plan, core.Batch{Name: "frames/none", N: 40, Params: p, Timeout: 600})
-	for _, t := range []string{"direct", "gateway", "none"} {
+	// ... and under the partially resolved tables a start-up can read from the kernel
+	for i, t := range []string{"route-only", "onlink", "mixed"} {
+		p, _ := json.Marshal(params{Mode: "frames", Tables: t, Offset: 40 * (i + 1)})
+		plan = append(plan, core.Batch{Name: "frames/" + t, N: 40, Params: p, Timeout: 600})
+	}
+	for _, t := range []string{"direct", "gateway", "none", "route-only", "mixed"} {
 		p, _ := json.Marshal(params{Mode: "flood", Tables: t})
 		plan = append(plan, core.Batch{Name: "flood/" + t, N: 1, Params: p, Timeout: 900})
 	}
